@@ -13,7 +13,7 @@ RULE = ("seeded generator over (parent scalar class x chain-code class x depth x
         "construction form) with boundary corpora; PRF corners via chosen-output stub; distinct = "
         "distinct (monitor, exact case) digests; every case is non-trivial (a full CKDpriv "
         "recomputed by the independent model and compared field by field and as printed strings)"
-        " EXTENSIONS: + parents as temporaries (orphan), copies / pickles of the derived node, index paths as tuple / iterator / generator, parents parsed from streams at an offset / as second record, 2^19+600 further derivations on the parent of a held child (fast mode), one node-level listing call of K-1 .. 2K+1 rows for every threshold K harvested from the code under test (vpkg.harvest / vpkg.longrun)")
+        " EXTENSIONS: + parents as temporaries (orphan), copies / pickles of the derived node, index paths as tuple / iterator / generator, parents parsed from streams at an offset / as second record, 2^19+600 further derivations on the parent of a held child (fast mode), one node-level listing call of K-1 .. 2K+1 rows for every threshold K harvested from the code under test (vpkg.harvest / vpkg.longrun), short real-arithmetic listings across every power of two (carries), nodes of a caller-made subclass")
 LEVEL_TEXT = ("Every PrvKeyNode.ckd execution (direct, via derive_path, and with the PRF substituted by a chosen-output "
               "stub) is adjudicated by an independent CKDpriv model: child scalar as integer and as the 32-byte field of the "
               "printed xprv, chain code, depth, child number, parent fingerprint, network flag, PRF input layout. Held on K "
@@ -234,7 +234,7 @@ def gen_parent(rnd, ctx=None):
             "pindex": 0 if d == 0 else gen.index(rnd)[1],
             "pfp": b"\x00" * 4 if d == 0 else gen.rbytes(rnd, 4),
             "testnet": rnd.random() < 0.5,
-            "form": rnd.choice(["ctor", "ctor", "str", "bytes", "stream", "stream-offset", "stream-second"]), "vpurpose": rnd.choice([44, 44, 49, 84])}
+            "form": rnd.choice(["ctor", "ctor", "str", "bytes", "stream", "stream-offset", "stream-second", "sub-ctor", "sub-str"]), "vpurpose": rnd.choice([44, 44, 49, 84])}
     return case
 
 
@@ -340,6 +340,11 @@ def run(ctx):
     for case in longrun.node_listing_cases(ctx, "prv", gen.rbytes(rnd, 32)):
         longrun.judge_node_listing(ctx, "long_listing", "C01", case)
     ctx.extra["harvested_thresholds"] = longrun.thresholds()
+    # short listings that cross every power of two (carries in the serialised child number)
+    cseed = gen.rbytes(rnd, 32)
+    for b in range(1, 33):
+        if ctx.mine(b):
+            longrun.judge_carry_listing(ctx, "long_listing", "C01", {"seed": cseed, "testnet": bool(b & 1), "side": "prv", "b": b})
 
 
 def replay(ctx, monitor, case):
@@ -353,7 +358,10 @@ def replay(ctx, monitor, case):
             judge_capacity(ctx, case)
         elif monitor == "long_listing":
             from .. import longrun
-            longrun.judge_node_listing(ctx, "long_listing", "C01", case)
+            if "b" in case:
+                longrun.judge_carry_listing(ctx, "long_listing", "C01", case)
+            else:
+                longrun.judge_node_listing(ctx, "long_listing", "C01", case)
         elif monitor == "derive_path":
             judge_derive_path(ctx, case)
         else:
